@@ -701,3 +701,18 @@ Proof.
     split; [apply (stream_data D dempty dlen msg did datas 0)|].
     intros d0 r E Hb. subst datas. apply (stream_replay D dempty dapp dlen msg did d0 r Hb).
 Qed.
+
+(* ---------- the witness snapshot chunk ---------- *)
+(* a witness chunk is, by itself, a complete in-order stream of one sender: the receiver
+   theorems (in_order_delivery_reassembles, finalize_iff_complete_valid_sequence) apply
+   to it; what it writes is one file named witness_snapshot_filename holding the data *)
+Lemma witness_chunk_complete :
+  forall D (dapp : D -> D -> D) dlen msg did (data : D),
+    let c := witness_chunk D dlen msg did data in
+    ids_from D 0 [c] /\ same_stream D did (fst c) [c] /\ last_only D [c] /\
+    c_hasfi (fst c) = false /\ c_witness (fst c) = true /\
+    replay D dapp [] [c] = Some [(witness_snapshot_filename, data)].
+Proof.
+  intros. unfold c, witness_chunk. simpl. repeat split; auto.
+  constructor; [|constructor]. simpl. repeat split; reflexivity.
+Qed.
